@@ -54,6 +54,7 @@ type iterState struct {
 	mref Term   // map reference
 	mT   *types.Map
 	seen Term // Array K Bool
+	cur  Term // key delivered by the last Next (map iterators); unset before the first one
 }
 
 type deferred struct {
